@@ -538,6 +538,14 @@ def corpus(prop):
         out.append(mk({0: ('R', 0, 0, ('I', ('l', 2), ('W', 10, 0, ('k', 3), ('D',)), ('D',))), 1: ('R', 1, 0, ('I', ('l', 2), ('W', 10, 0, ('k', 4), ('D',)), ('D',))), 9: pan},
                       [['E', '3', '1'], ['S', '1', 'q', '9'], ['E', '3', '0'], ['E', '0', '1'], ['E', '1', '0'], ['S', '2', 'q', '0', 'q', '1'],
                        ['E', '0', '0'], ['E', '1', '1'], ['S', '1', 'q', '1']], kind='panic', generated={10: (None, 0)}))
+    if prop in ('C19', 'C07', 'C20'):
+        # seed C19_r16 (traversal state of the cycle search survives the abort): (a) Main(0) requires Middle(1) and Generate(2) and reads
+        # Generate's product; Middle requires Main while r0 = 1: diagnosed cycle, cause removed, rebuild must equal from-scratch;
+        # (b) a ring of three tasks: the retry must abort in the same way, every task executed once
+        out.append(mk({0: ('Q', 1, 0, ('Q', 2, 0, ('R', 10, 0, ('T', ('a',))))), 1: ('R', 0, 0, ('I', ('l', 2), ('Q', 0, 0, ('D',)), ('D',))), 2: ('W', 10, 0, ('k', 3), ('D',))},
+                      [['E', '0', '1'], ['S', '1', 'q', '0'], ['E', '0', '0'], ['S', '1', 'q', '0'], ['S', '1', 'q', '0']], kind='panic', generated={10: (2, 0)}))
+        out.append(mk({0: ('Q', 1, 0, ('D',)), 1: ('Q', 2, 0, ('D',)), 2: ('Q', 0, 0, ('D',))},
+                      [['S', '1', 'q', '0'], ['S', '1', 'q', '0'], ['S', '1', 'q', '1']], kind='panic'))
     if prop in ('C01', 'C19'):
         # an execution is aborted after it recorded a read; the source changes and the task is rebuilt; then the source returns to the
         # value the ABORTED run saw: nothing of that run may survive (the recorded stamp must be the rebuilt run's)
